@@ -13,7 +13,7 @@ RULE = ("case = (generated 2D plotfile spec (rectangular domains down to one blo
         "numpy.empty is pre-filled with NaN so a never-written pixel is visible; non-trivial = >=2 levels or >=2 mesh/layout features")
 
 
-def run_case(ctx, rep, spec, fields, limit, serial, model, start=None, path=None, truth=None, cli=False, previous=None):
+def run_case(ctx, rep, spec, fields, limit, serial, model, start=None, path=None, truth=None, cli=False, previous=None, reuse=False):
     from amr_kitchen.mandoline.mandoline import Mandoline
     if path is None:
         path = ctx.newdir("c08_")
@@ -32,7 +32,8 @@ def run_case(ctx, rep, spec, fields, limit, serial, model, start=None, path=None
     names = dedup_names(spec["fields"])
     nlev = len(spec["levels"])
     L = nlev - 1 if limit is None else limit
-    case = {"spec": spec, "fields": fields, "limit": limit, "serial": serial, "cli": cli}
+    case = {"spec": spec, "fields": fields, "limit": limit, "serial": serial, "cli": cli, "reuse": reuse}
+    if reuse: rep.count("one-object-flattened-twice-first-result-converted-in-place")
     if previous is not None:
         case["previous"] = previous; rep.count("path-rewritten-with-other-data-then-flattened-again")
     if cli: rep.count("console-script")
@@ -44,6 +45,15 @@ def run_case(ctx, rep, spec, fields, limit, serial, model, start=None, path=None
             if cli:
                 from .. import tools
                 out = tools.mandoline_cli(path, "array", ctx.newdir("c08cli_"), fields, None, None, limit, serial)
+            elif reuse:
+                # one object flattened twice; what the first call returned is the caller's: it converts the arrays in place
+                # (coordinates to other units, values rescaled) before asking again
+                m = Mandoline(path, fields=fields, limit_level=limit, serial=serial, verbose=0)
+                first = m.slice(fformat="return")
+                for k, v in first.items():
+                    if isinstance(v, np.ndarray) and v.dtype.kind == "f" and v.flags.writeable:
+                        v *= 100.0; v -= 1.0
+                out = m.slice(fformat="return")
             else:
                 out = Mandoline(path, fields=fields, limit_level=limit, serial=serial, verbose=0).slice(fformat="return")
     except SystemExit as e:
@@ -145,6 +155,9 @@ def run(ctx, rep, model=True):
             serial = (i + j) % 2 == 0
             run_case(ctx, rep, spec, f, limit, serial, model, start=[None, pools.order_reversed, pools.order_rot(1)][j % 3],
                      path=path, truth=truth, cli=(limit == 0 and nlev >= 2 and j % 2 == 0) or (i + j) % 9 == 4)
+        if i % 3 == 1:
+            run_case(ctx, rep, spec, list(names), None, True, model, path=path, truth=truth, reuse=True)
+            run_case(ctx, rep, spec, [names[0], "grid_level"], None, False, model, path=path, truth=truth, reuse=True)
         if i % 3 == 0 and i % 7 != 2:
             # the plotfile is rewritten at the same path (same mesh and layout, other values) and flattened again
             import copy, shutil
@@ -170,4 +183,4 @@ def big_box_spec(rng):
 
 def replay(ctx, rep, obj, model=True):
     c = obj["case"]
-    run_case(ctx, rep, c["spec"], c["fields"], c["limit"], c["serial"], model, cli=c.get("cli", False), previous=c.get("previous"))
+    run_case(ctx, rep, c["spec"], c["fields"], c["limit"], c["serial"], model, cli=c.get("cli", False), previous=c.get("previous"), reuse=c.get("reuse", False))
